@@ -11,7 +11,7 @@ RULE = ("G2: typed Sids (concrete and search) of every configured type, stratifi
         "query (when values are query-safe), eval(repr()) and copy(); canonical string checked against R2 render; the "
         "equality law is checked on all pairs inside batches of 120 Sids that include forced-type same-string Sids. "
         "Non-trivial = distinct typed uri; the M-sid monitor (C01 oracle) stays installed.")
-ASSUME = ["query round trip only judged for values that are non-empty and free of whitespace and of & = % + # ? ~ ;",
+ASSUME = ["query round trip only judged for values that are free of whitespace and of & = % + # ? ~ ;",
           "Sid(fields=...) of a Sid whose type was FORCED by a uri away from its natural type is not judged (quantifier: natural typing)"]
 BUDGET = {"quick": 24000, "thorough": 1600000}
 NSHARDS = 16
@@ -28,7 +28,8 @@ def floors(m, tier):
             "pairs": (m.counters.get("pairs", 0), 10000),
             "query round trips": (m.counters.get("query_rt", 0), 1000),
             "forced same-string pairs": (m.counters.get("same_string_diff_type_pairs", 0), 20),
-            "values containing ':'": (m.counters.get("colon_in_value", 0), 100)}
+            "values containing ':'": (m.counters.get("colon_in_value", 0), 100),
+            "query round trips with an empty value": (m.counters.get("query_rt_with_empty_value", 0), 50)}
 
 
 def run(snap, tier, seed, t0, replay):
@@ -77,7 +78,9 @@ def check_one(rec, model, Sid, s, rng, forced=False):
             if k == 2:
                 sh = list(reversed(items))
             forms.append(("fields", (lambda sh=sh: Sid(fields=dict(sh)))))
-        if all(v and not (set(v) & QUERY_UNSAFE) for v in fields.values()):
+        if all(not (set(v) & QUERY_UNSAFE) for v in fields.values()):
+            if not all(fields.values()):
+                rec.count("query_rt_with_empty_value")
             rec.count("query_rt")
             forms.append(("query", lambda: Sid(query=x.as_query())))
             forms.append(("query?", lambda: Sid("?" + x.as_query())))
@@ -138,6 +141,13 @@ def worker(args):
             s = vocab.valid_string(t, rng)
         else:
             s, _ = vocab.search_string(t, rng, p_sym=rng.choice([0.15, 0.4, 0.8, 1.0]))
+        if rng.random() < 0.05:
+            # an EMPTY value at an open level is a value ('hamlet/a/char/' is the asset '')
+            sg = s.split("/")
+            op = [i for i in range(min(len(sg), t.nseg)) if vocab.info[t.name][i]["open"]]
+            if op:
+                sg[rng.choice(op)] = ""
+                s = "/".join(sg)
         rec.ev()
         x = check_one(rec, model, Sid, s, rng)
         if it % 1999 == 0 and x is not None:
